@@ -123,9 +123,66 @@ class Token(object):
         return 'Token(%d)' % self.k
 
 
+class EqAll(object):
+    """equal to everything (unittest.mock.ANY style)"""
+
+    def __eq__(self, other):
+        return True
+
+    def __ne__(self, other):
+        return False
+
+    __hash__ = object.__hash__
+
+    def __repr__(self):
+        return 'EqAll()'
+
+
+class EqRaises(object):
+    """a value whose comparison with a foreign operand is an error"""
+
+    def __eq__(self, other):
+        if isinstance(other, EqRaises):
+            return self is other
+        raise TypeError('EqRaises can only be compared with EqRaises')
+
+    def __ne__(self, other):
+        return not self.__eq__(other)
+
+    __hash__ = object.__hash__
+
+    def __repr__(self):
+        return 'EqRaises()'
+
+
+class EqArray(object):
+    """array-like: == is element-wise and the truth value of the outcome is ambiguous (numpy style)"""
+
+    class Ambiguous(object):
+        def __bool__(self):
+            raise ValueError('The truth value of an array with more than one element is ambiguous')
+
+    def __eq__(self, other):
+        return EqArray.Ambiguous()
+
+    def __ne__(self, other):
+        return EqArray.Ambiguous()
+
+    __hash__ = object.__hash__
+
+    def __repr__(self):
+        return 'EqArray()'
+
+
 def mkval(spec):
     from hotxlfp.formulas import error
     k = spec[0]
+    if k == 'eqall':
+        return EqAll()
+    if k == 'eqraises':
+        return EqRaises()
+    if k == 'eqarray':
+        return EqArray()
     if k == 'int':
         return int(spec[1])
     if k == 'float':
@@ -753,6 +810,9 @@ def cases(rng, ctx):
         if not VAR_RE.fullmatch(n):
             continue
         c = {'kind': 'var', 'name': n, 'v': gen_value(rng)}
+        if rng.random() < 0.06:
+            # values with an equality of their own: always equal, raising, element-wise with an ambiguous truth value
+            c['v'] = [rng.choice(['eqall', 'eqraises', 'eqarray'])]
         if rng.random() < 0.15:
             c['first'] = gen_value(rng)          # set twice: the later value counts
         out.append(c)
@@ -760,7 +820,8 @@ def cases(rng, ctx):
         out.append({'kind': 'var', 'name': n, 'v': ['int', '5']})
     for spec in ([['int', '0']], [['float', (0.5).hex()]], [['str', '']], [['bool', False]], [['none']], [['list', []]],
                  [['list', [['list', [['int', '1']]], ['none']]]], [['date', [2020, 2, 29, 1, 2, 3, 0]]], [['tuple', []]], [['dict']],
-                 [['set']], [['bytes']], [['complex']], [['object']], [['plainobject']], [['fn']], [['nan']], [['inf']], [['type']]) + tuple(
+                 [['set']], [['bytes']], [['complex']], [['object']], [['plainobject']], [['fn']], [['nan']], [['inf']], [['type']],
+                 [['eqall']], [['eqraises']], [['eqarray']]) + tuple(
                      [['err', code]] for code in CODES):
         out.append({'kind': 'var', 'name': 'value_x', 'v': spec[0]})
     # never-set names
